@@ -4,6 +4,6 @@ PROP = "C01"
 def run(tier, seed):
     return _dbprop.run(PROP, tier, seed, [('crash', 24, 160), ('alter', 6, 60)],
         ['disk model: every write the engine issues is atomic, durable and ordered when issued (the engine opens its files with O_DIRECT); torn or reordered writes are not explored', 'crash points: every prefix of the recorded write stream next to a sync / set_len / call boundary plus a seeded sample (quick), all prefixes (thorough); each image is opened by a fresh process under a 90 s watchdog', 'recorded findings: CheckpointNotAtomic (crash points inside Pager::flush are not constrained), CheckpointLeaksOpenTransaction (no checkpoint while a session is open)'],
-        'history = DDL + autocommit statements + up to two interleaved sessions + checkpoints; image = database file and log as they were after the k-th write; non-trivial = at least one acknowledged commit lies before the crash point', mc=None, pre=dbcheck.model_check_recovery, nontrivial_key='nontrivial', extra={"crash": ["--points", "90" if tier == "quick" else "100000"]})
+        'history = DDL + autocommit statements + up to two interleaved sessions + checkpoints; image = database file and log as they were after the k-th write; non-trivial = at least one acknowledged commit lies before the crash point', mc=None, level='fault_enumeration', pre=dbcheck.model_check_recovery, nontrivial_key='nontrivial', extra={"crash": ["--points", "90" if tier == "quick" else "100000"]})
 def replay(path, seed):
     return dbcheck.replay_trace(PROP, path, seed)
